@@ -606,14 +606,15 @@ K_NOROWS = 'getitem-2d-no-rows-selected'
 K_EMPTYROW = 'getitem-2d-col-slice-empties-a-row'
 K_EMPTYLIST = 'getitem-2d-empty-index-list-or-all-false-mask'
 K_RECT = 'rect-fastpath-multidim-cells'
-# open findings of the current tree (known_findings.d/C05.json, fix proposal C05-paired-broadcast-narrow-int.diff)
+# two more input classes, repaired by commit 82d78c9 (C05-paired-broadcast-narrow-int.diff); tags only, like the others
 K_BCAST = 'getitem-paired-one-element-column-list'
 K_NARROW = 'getitem-narrow-int-index-overflow'
 DT_MAX = {'int8': 127, 'int16': 32767}
 
 
-def open_keys(arr, op, idx):
-    """input classes of the two open findings (computed from the input alone)"""
+def repaired_later_classes(arr, op, idx):
+    """one-element column list against a longer row list; narrow-int index arrays whose negative entries used to
+    overflow (computed from the input alone; only used to tag the evidence)"""
     keys = []
     if op == 'get' and idx['t'] == 'tuple':
         r, c = idx['r'], idx['c']
@@ -944,8 +945,8 @@ def judge(ctx, impl, op, idx, mresp, record=True, extra_tags=(), twice=True):
             tags.append('ctor-kw=' + arr['kw'])
         for k in keys:
             tags.append('formerly-failing-class:' + k)
-        for k in open_keys(arr, op, idx):
-            tags.append('class:' + k)
+        for k in repaired_later_classes(arr, op, idx):
+            tags.append('formerly-failing-class:' + k)
         ctx.case(case, nontrivial=nontrivial, tags=tags)
     else:
         ctx.evaluations += 1
@@ -954,12 +955,8 @@ def judge(ctx, impl, op, idx, mresp, record=True, extra_tags=(), twice=True):
             what = 'access outside a row/array returned %r instead of raising' % (i,)
         else:
             what = 'read differs from the same read on the list of rows: got %r, expected %r' % (i, o['ok'])
-        # the input classes the pre-fix tree got wrong are tags only; excused are only the two open findings
-        okeys = open_keys(arr, op, idx)
-        ctx.violation(what[:600], dict(case, got=i, expected=o), key=okeys[0] if okeys else None)
-        if okeys:
-            ctx.skip('model comparison skipped (model = proposed repair): ' + okeys[0])
-            return
+        # nothing is excused: the input classes earlier trees got wrong are tags only
+        ctx.violation(what[:600], dict(case, got=i, expected=o), key=None)
     # correspondence with the model (repaired variant)
     if mresp is None:
         ctx.skip('model-skipped-large-array')
@@ -967,11 +964,9 @@ def judge(ctx, impl, op, idx, mresp, record=True, extra_tags=(), twice=True):
     m = model_canon(arr, op, idx, mresp, impl.flat)
     ii = {k: v for k, v in i.items() if k != 'exc'}
     if m != ii:
-        if holds and open_keys(arr, op, idx):
-            ctx.skip('model comparison skipped (model = proposed repair): ' + open_keys(arr, op, idx)[0])
-        elif holds:
+        if holds:
             ctx.disagreement('Model.Ragged vs RaggedArray (%s)' % op, dict(case, model=m, impl=i))
-        # a violation outside the known classes has already been reported
+        # when the predicate fails the violation has already been reported
 
 
 def slice_scope(ctx):
